@@ -222,7 +222,6 @@ theorem execFroms_stable {F : Facts} {P : State → Prop} (hP : Stable F P)
     split at he
     · cases he
     · rename_i σ1 loc1 h1
-      simp only [State.force_eq] at he
       exact ih _ _ _ _ (execFrom_stable hP himp _ _ _ _ _ _ _ _ h h1) he
 
 theorem execEvs_stable {F : Facts} {P : State → Prop} (hP : Stable F P)
@@ -236,15 +235,15 @@ theorem execEvs_stable {F : Facts} {P : State → Prop} (hP : Stable F P)
     intro saved loc σ σ' loc' h hs he
     cases ev with
     | bind n =>
-      simp only [execEvs, State.force_eq] at he
+      simp only [execEvs] at he
       exact ih _ _ _ _ _ (hP.bindIn _ _ _ _ _ h) hs he
     | bindMod n c =>
-      simp only [execEvs, State.force_eq] at he
+      simp only [execEvs] at he
       split at he
       · cases he
       · exact ih _ _ _ _ _ (hP.bindIn _ _ _ _ _ h) hs he
     | unbind n =>
-      simp only [execEvs, State.force_eq] at he
+      simp only [execEvs] at he
       split at he
       · split at he
         · exact ih _ _ _ _ _ h hs he
@@ -265,19 +264,19 @@ theorem execEvs_stable {F : Facts} {P : State → Prop} (hP : Stable F P)
         · exact ih _ _ _ _ _ h hs he
         · cases he
     | ensure c =>
-      simp only [execEvs, State.force_eq] at he
+      simp only [execEvs] at he
       split at he
       · cases he
       · rename_i σ1 hi
         exact ih _ _ _ _ _ (himp _ _ _ h hi) hs he
     | fromName c n a =>
-      simp only [execEvs, State.force_eq] at he
+      simp only [execEvs] at he
       split at he
       · cases he
       · rename_i σ1 loc1 h1
         exact ih _ _ _ _ _ (execFrom_stable hP himp _ _ _ _ _ _ _ _ h h1) hs he
     | star c =>
-      simp only [execEvs, State.force_eq] at he
+      simp only [execEvs] at he
       split at he
       · cases he
       · rename_i σ1 loc1 h1
@@ -492,7 +491,6 @@ theorem execFroms_inv {F : Facts} {imp : ModId → State → Except Err State} (
     split at he
     · cases he
     · rename_i σ1 loc1 h1
-      simp only [State.force_eq] at he
       obtain ⟨a, b⟩ := execFrom_inv himp _ _ _ _ _ _ _ _ h hl h1
       exact ih _ _ _ _ a b he
 
@@ -508,11 +506,11 @@ theorem execEvs_inv {F : Facts} {imp : ModId → State → Except Err State} (hi
     intro saved loc σ σ' loc' h hl hs he
     cases ev with
     | bind n =>
-      simp only [execEvs, State.force_eq] at he
+      simp only [execEvs] at he
       obtain ⟨a, b⟩ := bindIn_inv sc n .obj h hl (fun c hc => by cases hc)
       exact ih _ _ _ _ _ a b hs he
     | bindMod n c =>
-      simp only [execEvs, State.force_eq] at he
+      simp only [execEvs] at he
       split at he
       · cases he
       · rename_i hst
@@ -520,7 +518,7 @@ theorem execEvs_inv {F : Facts} {imp : ModId → State → Except Err State} (hi
           (fun c' hc => by cases hc; intro hh; exact hst hh)
         exact ih _ _ _ _ _ a b hs he
     | unbind n =>
-      simp only [execEvs, State.force_eq] at he
+      simp only [execEvs] at he
       split at he
       · split at he
         · exact ih _ _ _ _ _ h (hl.erase n) hs he
@@ -542,20 +540,20 @@ theorem execEvs_inv {F : Facts} {imp : ModId → State → Except Err State} (hi
         · exact ih _ _ _ _ _ h hl hs he
         · cases he
     | ensure c =>
-      simp only [execEvs, State.force_eq] at he
+      simp only [execEvs] at he
       split at he
       · cases he
       · rename_i σ1 hi
         exact ih _ _ _ _ _ (himp.inv _ _ _ h hi) (hl.mono (fun d hd => himp.grow _ _ _ _ hd hi)) hs he
     | fromName c n a =>
-      simp only [execEvs, State.force_eq] at he
+      simp only [execEvs] at he
       split at he
       · cases he
       · rename_i σ1 loc1 h1
         obtain ⟨a', b'⟩ := execFrom_inv himp _ _ _ _ _ _ _ _ h hl h1
         exact ih _ _ _ _ _ a' b' hs he
     | star c =>
-      simp only [execEvs, State.force_eq] at he
+      simp only [execEvs] at he
       split at he
       · cases he
       · rename_i σ1 loc1 h1
@@ -626,5 +624,237 @@ theorem callFn_inv (F : Facts) (m : ModId) (f : Func) (σ σ' : State) (h : Attr
   · rename_i σ1 loc1 h1
     cases he
     exact (execEvs_inv (impGood_importMod F _) _ _ _ _ _ _ _ h (LocInv.nil _) (by simp) h1).1
+
+/-! ## 4. the static import closure bounds what an import loads -/
+
+theorem mem_zipIdx {α} (l : List α) (k i : Nat) (a : α) :
+    (i, a) ∈ zipIdx l k ↔ ∃ j, i = k + j ∧ l[j]? = some a := by
+  induction l generalizing k with
+  | nil => simp [zipIdx]
+  | cons b r ih =>
+    simp only [zipIdx, List.mem_cons, Prod.mk.injEq, ih]
+    constructor
+    · rintro (⟨rfl, rfl⟩ | ⟨j, rfl, hj⟩)
+      · exact ⟨0, rfl, rfl⟩
+      · exact ⟨j + 1, by omega, by simpa using hj⟩
+    · rintro ⟨j, rfl, hj⟩
+      cases j with
+      | zero => left; simp at hj; exact ⟨rfl, hj.symm⟩
+      | succ j => right; exact ⟨j, by omega, by simpa using hj⟩
+
+
+/-- every module in `sys.modules` is a member of the set `S` -/
+def Within (S : Nat) (σ : State) : Prop := ∀ c, σ.statusOf c ≠ .absent → memSet S c = true
+
+theorem Within.set {S : Nat} {σ : State} (F : Facts) (m n : Nat) (v : Option Val) (h : Within S σ) :
+    Within S (σ.set F m n v) := by
+  intro c hc
+  rw [State.statusOf_set] at hc
+  exact h c hc
+
+theorem Within.setStatus {S : Nat} {σ : State} (c : Nat) (s : Status) (hm : memSet S c = true)
+    (h : Within S σ) : Within S (σ.setStatus c s) := by
+  intro c' hc
+  by_cases hcc : c = c'
+  · subst hcc; exact hm
+  · rw [State.statusOf_setStatus_other _ _ _ _ hcc] at hc
+    exact h c' hc
+
+theorem Within.bindIn {S : Nat} {σ : State} (F : Facts) (sc : Scope) (loc : Ns) (n : Name) (v : Val)
+    (h : Within S σ) : Within S (bindIn F sc loc σ n v).1 := by
+  unfold Lena.C20.bindIn
+  split
+  · exact h
+  · exact h.set F _ _ _
+
+theorem findChild_mem (p n : Nat) : ∀ (l : List Module) (i c : Nat),
+    Facts.findChild p n l i = some c → c ∈ childrenFrom p l i := by
+  intro l
+  induction l with
+  | nil => intro i c h; simp [Facts.findChild] at h
+  | cons M r ih =>
+    intro i c h
+    simp only [Facts.findChild] at h
+    simp only [childrenFrom]
+    split at h
+    · rename_i q hq
+      split at h
+      · rename_i hb
+        simp only [Bool.and_eq_true] at hb
+        cases h
+        simp [hb.1]
+      · split
+        · exact List.mem_cons_of_mem _ (ih _ _ h)
+        · exact ih _ _ h
+    · exact ih _ _ h
+
+theorem childOf_mem_childrenOf (F : Facts) (p n c : Nat) (h : F.childOf p n = some c) :
+    c ∈ F.childrenOf p :=
+  findChild_mem p n F.mods 0 c h
+
+/-- the import machinery stays within `S` when asked for a member of `S` -/
+def ImpWithin (S : Nat) (imp : ModId → State → Except Err State) : Prop :=
+  ∀ c, memSet S c = true → ∀ σ σ', Within S σ → imp c σ = .ok σ' → Within S σ'
+
+theorem execFrom_within {F : Facts} {S : Nat} {imp : ModId → State → Except Err State}
+    (himp : ImpWithin S imp) (sc : Scope) (m : ModId) (n asn : Name)
+    (hc : ∀ c, F.childOf m n = some c → memSet S c = true)
+    (loc : Ns) (σ σ' : State) (loc' : Ns) (h : Within S σ)
+    (he : execFrom F imp sc m n asn loc σ = .ok (σ', loc')) : Within S σ' := by
+  unfold execFrom at he
+  split at he
+  · rw [← ok_fst he]; exact h.bindIn F _ _ _ _
+  · split at he
+    · cases he
+    · split at he
+      · cases he
+      · rename_i c hch _ σ1 hi
+        have h1 : Within S σ1 := himp c (hc c hch) _ _ h hi
+        split at he
+        · rw [← ok_fst he]; exact h1.bindIn F _ _ _ _
+        · rw [← ok_fst he]; exact h1.bindIn F _ _ _ _
+
+theorem execFroms_within {F : Facts} {S : Nat} {imp : ModId → State → Except Err State}
+    (himp : ImpWithin S imp) (sc : Scope) (m : ModId)
+    (hc : ∀ n c, F.childOf m n = some c → memSet S c = true) :
+    ∀ (ns : List Name) (loc : Ns) (σ σ' : State) (loc' : Ns), Within S σ →
+      execFroms F imp sc m ns loc σ = .ok (σ', loc') → Within S σ' := by
+  intro ns
+  induction ns with
+  | nil => intro loc σ σ' loc' h he; simp only [execFroms] at he; cases he; exact h
+  | cons n r ih =>
+    intro loc σ σ' loc' h he
+    simp only [execFroms] at he
+    split at he
+    · cases he
+    · rename_i σ1 loc1 h1
+      exact ih _ _ _ _ (execFrom_within himp _ _ _ _ (hc n) _ _ _ _ h h1) he
+
+theorem execEvs_within {F : Facts} {S : Nat} {imp : ModId → State → Except Err State}
+    (himp : ImpWithin S imp) (sc : Scope) :
+    ∀ (evs : List Ev) (saved : List (State × Ns)) (loc : Ns) (σ σ' : State) (loc' : Ns),
+      (∀ e ∈ evs, ∀ t ∈ evTargets F e, memSet S t = true) →
+      Within S σ → (∀ s ∈ saved, Within S s.1) →
+      execEvs F imp sc evs saved loc σ = .ok (σ', loc') → Within S σ' := by
+  intro evs
+  induction evs with
+  | nil => intro saved loc σ σ' loc' _ h _ he; simp only [execEvs] at he; cases he; exact h
+  | cons ev rest ih =>
+    intro saved loc σ σ' loc' hT h hs he
+    have hTr : ∀ e ∈ rest, ∀ t ∈ evTargets F e, memSet S t = true :=
+      fun e he' => hT e (List.mem_cons_of_mem _ he')
+    have hT0 : ∀ t ∈ evTargets F ev, memSet S t = true := hT ev (List.mem_cons_self ..)
+    cases ev with
+    | bind n =>
+      simp only [execEvs] at he
+      exact ih _ _ _ _ _ hTr (h.bindIn F _ _ _ _) hs he
+    | bindMod n c =>
+      simp only [execEvs] at he
+      split at he
+      · cases he
+      · exact ih _ _ _ _ _ hTr (h.bindIn F _ _ _ _) hs he
+    | unbind n =>
+      simp only [execEvs] at he
+      split at he
+      · split at he
+        · exact ih _ _ _ _ _ hTr h hs he
+        · cases he
+      · split at he
+        · exact ih _ _ _ _ _ hTr (h.set F _ _ _) hs he
+        · cases he
+    | load n =>
+      simp only [execEvs] at he
+      split at he
+      · exact ih _ _ _ _ _ hTr h hs he
+      · cases he
+    | attr root ch =>
+      simp only [execEvs] at he
+      split at he
+      · cases he
+      · split at he
+        · exact ih _ _ _ _ _ hTr h hs he
+        · cases he
+    | ensure c =>
+      simp only [execEvs] at he
+      split at he
+      · cases he
+      · rename_i σ1 hi
+        have hc : memSet S c = true := hT0 c (by simp [evTargets])
+        exact ih _ _ _ _ _ hTr (himp c hc _ _ h hi) hs he
+    | fromName c n a =>
+      simp only [execEvs] at he
+      split at he
+      · cases he
+      · rename_i σ1 loc1 h1
+        have hc : ∀ d, F.childOf c n = some d → memSet S d = true := by
+          intro d hd
+          exact hT0 d (by simp [evTargets, hd])
+        exact ih _ _ _ _ _ hTr (execFrom_within himp _ _ _ _ hc _ _ _ _ h h1) hs he
+    | star c =>
+      simp only [execEvs] at he
+      split at he
+      · cases he
+      · rename_i σ1 loc1 h1
+        have hc : ∀ n d, F.childOf c n = some d → memSet S d = true := by
+          intro n d hd
+          exact hT0 d (by simp only [evTargets]; exact childOf_mem_childrenOf F c n d hd)
+        exact ih _ _ _ _ _ hTr (execFroms_within himp _ _ hc _ _ _ _ _ h h1) hs he
+    | noModule n => simp only [execEvs] at he; cases he
+    | enter =>
+      simp only [execEvs] at he
+      refine ih _ _ _ _ _ hTr h ?_ he
+      intro s hs'
+      rcases List.mem_cons.1 hs' with rfl | hs'
+      · exact h
+      · exact hs s hs'
+    | leave =>
+      simp only [execEvs] at he
+      cases saved with
+      | nil => simp at he
+      | cons sl more =>
+        obtain ⟨s, l⟩ := sl
+        simp only at he
+        exact ih _ _ _ _ _ hTr (hs (s, l) (List.mem_cons_self ..))
+          (fun t ht => hs t (List.mem_cons_of_mem _ ht)) he
+
+theorem closed_targets {F : Facts} {S : Nat} (hS : closedSetB F S = true) (m : ModId) (M : Module)
+    (hm : memSet S m = true) (hM : F.modOf m = some M) :
+    ∀ e ∈ M.evs, ∀ t ∈ evTargets F e, memSet S t = true := by
+  unfold closedSetB at hS
+  rw [List.all_eq_true] at hS
+  have := hS (m, M) ((mem_zipIdx _ _ _ _).2 ⟨m, by omega, hM⟩)
+  simp only [hm, Bool.not_true, Bool.false_or, List.all_eq_true] at this
+  exact this
+
+/-- **an import never leaves a closed set**: if `S` contains `m` and, with every module, the import
+targets of its module-level code, then importing `m` — whatever the order in which circular
+imports are resolved — puts only members of `S` into `sys.modules` -/
+theorem importMod_within {F : Facts} {S : Nat} (hS : closedSetB F S = true) :
+    ∀ (k : Nat) (m : ModId) (σ σ' : State), memSet S m = true → Within S σ →
+      importMod F k m σ = .ok σ' → Within S σ' := by
+  intro k
+  induction k with
+  | zero => intro m σ σ' _ _ he; simp [importMod] at he
+  | succ k ih =>
+    intro m σ σ' hm h he
+    simp only [importMod] at he
+    split at he
+    · cases he
+    · rename_i M hM
+      split at he
+      · split at he
+        · cases he
+        · rename_i σ1 loc1 h1
+          have hk : ImpWithin S (importMod F k) := fun c hc s s' hs hi => ih c s s' hc hs hi
+          have h2 : Within S σ1 := execEvs_within hk _ _ _ _ _ _ _
+            (closed_targets hS m M hm hM) (h.setStatus m .running hm) (by simp) h1
+          have h3 : Within S (σ1.setStatus m .done) := h2.setStatus m .done hm
+          split at he
+          · cases he; exact h3
+          · cases he; exact h3.set F _ _ _
+      · cases he; exact h
+
+theorem within_init (S : Nat) : Within S State.init := by
+  intro c hc; simp at hc
 
 end Lena.C20
